@@ -43,13 +43,15 @@ func main() {
 	// ---- part 1 ----
 	t := time.Now()
 	st1 := &p1stats{}
-	part1(r, st1)
+	rp := newReporter(r)
+	part1(rp, st1)
 	progress("part 1 VerifyCommit", t)
 
 	// ---- part 3 (before the long search, so that a deadline cuts the search and not the call sites) ----
 	t = time.Now()
 	st3a, st3b := &p3stats{}, &p3stats{}
-	part3(r, st3a, st3b)
+	part3(rp, st3a, st3b)
+	rp.flush()
 	progress("part 3 call sites", t)
 
 	// ---- part 2 ----
@@ -101,7 +103,7 @@ func main() {
 	r.Assume("block validation is exercised with status.LastRecover=true so that no fault-validator record is required and LastCommit is the only varying clause; fast sync is driven through the real poolRoutine with stub app / p2p manager, the set in force for a block with Recover>0 being the recover set the app returns")
 	r.Assume("total voting power < 2^62 (the property's bound); reconstructLastCommit is not exercised")
 
-	if !r.Expired() {
+	if !r.Expired() && r.NViolations() == 0 {
 		need := func(ok bool, what string) {
 			if !ok {
 				vk.Fatalf("vacuity self-test failed: %s", what)
@@ -115,29 +117,44 @@ func main() {
 	r.Finish()
 }
 
-func part1(r *vk.Run, st *p1stats) {
+func part1(rp *reporter, st *p1stats) {
+	r := rp.r
 	all := len(slotVariants)
 	claimed := []int{idA, idB, idNil}
 	// (a) the full slot alphabet
 	var full [][]int64
 	if r.Quick() {
-		full = [][]int64{{1}, {1, 1}, {1, 2}, {1, 1, 1}, {1, 2, 3}, {1, 1, 1, 1}, {5, 1, 1, 1}, {1, 2, 3, 5}}
+		full = [][]int64{{1}, {1, 1}, {1, 2}, {1, 1, 1}, {1, 2, 3}, {1, 1, 1, 1}, {1, 2, 3, 5}}
 	} else {
-		for n := 1; n <= 4; n++ {
+		for n := 1; n <= 3; n++ {
 			full = append(full, powerVectors(n)...)
 		}
+		for _, pv := range powerVectors(4) { // four validators: the 16 vectors over {1,5}, plus one mixed
+			ok := true
+			for _, p := range pv {
+				ok = ok && (p == 1 || p == 5)
+			}
+			if ok {
+				full = append(full, pv)
+			}
+		}
+		full = append(full, []int64{1, 2, 3, 5}, []int64{5, 3, 2, 1})
 	}
 	for _, pv := range full {
 		if r.Expired() {
 			return
 		}
-		runVerifyCommit(r, st, newWorld(pv), all, claimed)
+		runVerifyCommit(rp, st, newWorld(pv), all, claimed)
 	}
-	// (b) threshold arithmetic: every power vector over {1,2,3,5}, slots in {absent, nil, A, B} (quick; thorough did them in (a))
-	if r.Quick() {
-		for n := 1; n <= 4; n++ {
-			for _, pv := range powerVectors(n) {
-				runVerifyCommit(r, st, newWorld(pv), 4, claimed)
+	// (b) threshold arithmetic: every power vector over {1,2,3,5}; slots in {absent, nil, A, B} (quick) / all correctly
+	// signed variants (thorough). Slots that are not correctly signed precommits of the right height make VerifyCommit
+	// fail whatever the powers are, so (a) x (b) covers the product.
+	for n := 1; n <= 4; n++ {
+		for _, pv := range powerVectors(n) {
+			if r.Quick() {
+				runVerifyCommit(rp, st, newWorld(pv), 4, []int{idA, idB})
+			} else if n == 4 {
+				runVerifyCommit(rp, st, newWorld(pv), numClean, claimed)
 			}
 		}
 	}
@@ -147,15 +164,16 @@ func part1(r *vk.Run, st *p1stats) {
 		if r.Quick() && len(pv) == 4 {
 			nv = numClean
 		}
-		runVerifyCommit(r, st, newWorld(pv), nv, claimed)
+		runVerifyCommit(rp, st, newWorld(pv), nv, claimed)
 	}
 	// (d) wrong number of slots
 	for _, pv := range [][]int64{{1}, {1, 1}, {1, 1, 1}, {1, 2, 3}, {1, 1, 1, 1}, {5, 1, 1, 1}} {
-		runWrongSize(r, st, newWorld(pv))
+		runWrongSize(rp, st, newWorld(pv))
 	}
 }
 
-func part3(r *vk.Run, sa, sb *p3stats) {
+func part3(rp *reporter, sa, sb *p3stats) {
+	r := rp.r
 	all := len(slotVariants)
 	type cfg struct {
 		pv []int64
@@ -188,18 +206,18 @@ func part3(r *vk.Run, sa, sb *p3stats) {
 		if r.Expired() {
 			return
 		}
-		runValidateBlock(r, sa, newWorld(c.pv), c.nv)
+		runValidateBlock(rp, sa, newWorld(c.pv), c.nv)
 	}
 	for _, c := range vb {
 		if r.Expired() {
 			return
 		}
-		runFastSync(r, sb, newWorld(c.pv), c.nv, fastSyncScenarios())
+		runFastSync(rp, sb, newWorld(c.pv), c.nv, fastSyncScenarios())
 	}
 	if !r.Quick() && !r.Expired() {
 		// the full alphabet on four validators, ordinary-block scenario only (every case leaves two unstoppable
 		// tickers of poolRoutine behind, which bounds how many cases are sensible in one process)
-		runFastSync(r, sb, newWorld([]int64{1, 2, 3, 5}), all, fastSyncScenarios()[:1])
+		runFastSync(rp, sb, newWorld([]int64{1, 2, 3, 5}), all, fastSyncScenarios()[:1])
 	}
 }
 
